@@ -338,7 +338,7 @@ def gate_edges(fn, adt, field, fx=None, weak=False):
     return out
 
 
-def gated(fn, block, adt, field, want, fx=None, weak=False):
+def gated(fn, block, adt, field, want, fx=None, weak=False, _via_decision=True):
     """Is `block` reachable only through an edge on which adt.field == want?  (weak: ... on which the field
     cannot be `not want`: a helper's early `Ok(false)` for a missing file counts as "not the same file")"""
     cfg = cfg_of(fn)
@@ -348,10 +348,132 @@ def gated(fn, block, adt, field, want, fx=None, weak=False):
     if not edges:
         return False, "no switch on %s.%s found" % (adt, field)
     r = cfg.reach([0], blocked_edges=edges)
+    if block in r and _via_decision:
+        # the test may have been taken earlier and its outcome *stored* (`placement = if dest.is_dir() && !opts.t
+        # { Inside } else { Onto }` ... `match self.placement { Inside => dest.join(..) }`): the block depends on a
+        # stored decision, and every assignment of the deciding value is itself gated
+        dec = _stored_decision_sites(fn, block)
+        if dec:
+            res = [gated(fn, a, adt, field, want, fx, weak, _via_decision=False) for a in dec]
+            if all(x[0] for x in res):
+                return True, "control-dependent on a stored decision, every assignment of which is %s" % res[0][1]
     if block in r:
         return False, "reachable without passing %s.%s == %s" % (adt.split("::")[-1], field, want)
     # and not reachable on the wrong-polarity edge alone
     return True, "control-dependent on %s.%s == %s" % (adt.split("::")[-1], field, want)
+
+
+def _flows_back(fn, l, want_struct_field=None, limit=400):
+    """Backward walk from local l through moves, references, Ok/Some wrapping, `?` and payload projections.
+    Yields (site, rvalue) of the aggregate / constant definitions reached."""
+    from cfg import identity_args
+    du = defuse(fn)
+    seen, work, out = set(), [l], []
+    while work and len(seen) < limit:
+        x = work.pop()
+        if x in seen:
+            continue
+        seen.add(x)
+        for site, whole in du.defs.get(x, []):
+            n = site.node
+            if site.is_term:
+                if n["k"] == "call":
+                    o = (n.get("fn") or {}).get("orig")
+                    ia = identity_args(n)
+                    idx = ia if ia is not None else ([0] if o in ("core::ops::try_trait::Try::branch",) else [])
+                    for i in idx:
+                        if i < len(n["args"]) and op_local(n["args"][i]) is not None:
+                            work.append(op_local(n["args"][i]))
+                continue
+            rv = n["rv"]
+            if rv["k"] in ("use", "cast"):
+                pl = op_place(rv["op"])
+                if pl is not None:
+                    pr = [e for e in pl.get("p", []) if e != "deref"]
+                    if all(isinstance(e, dict) and ("dc" in e or (e.get("f") == 0 and "adt" not in e or
+                           e.get("adt") in ("core::option::Option", "core::result::Result",
+                                            "core::ops::control_flow::ControlFlow"))) for e in pr):
+                        work.append(pl["l"])
+                elif "c" in rv["op"]:
+                    out.append((site, rv))
+            elif rv["k"] == "ref":
+                if not [e for e in rv["pl"].get("p", []) if e != "deref"]:
+                    work.append(rv["pl"]["l"])
+            elif rv["k"] == "agg":
+                if rv.get("adt") in ("core::option::Option", "core::result::Result", "core::ops::control_flow::ControlFlow"):
+                    if rv.get("variant") in ("Ok", "Some", "Continue"):
+                        for o_ in rv["fields"]:
+                            if op_local(o_) is not None:
+                                work.append(op_local(o_))
+                else:
+                    out.append((site, rv))
+    return out
+
+
+def _stored_decision_sites(fn, block):
+    """If `block` lies in one arm of a `match` on an enum value that was *assigned* elsewhere (directly, or as a
+    field of a struct built elsewhere): the blocks where the deciding variant is assigned; else []."""
+    cfg = cfg_of(fn)
+    du = defuse(fn)
+    out = None
+    for u, b in enumerate(fn.blocks):
+        t = b["term"]
+        if b.get("cleanup") or t["k"] != "switch" or t.get("op_ty") != "isize":
+            continue
+        d = op_local(t["op"])
+        ds = [s_ for s_, w_ in du.defs.get(d, []) if not s_.is_term and s_.node["rv"]["k"] == "discr"]
+        if len(ds) != 1:
+            continue
+        rvd = ds[0].node["rv"]
+        adt = rvd.get("adt") or ""
+        if adt.split("::")[0] not in ("libxcp", "libfs", "xcp"):
+            continue
+        names = {int(v["val"]): v["name"] for v in rvd.get("variants", [])}
+        # the arm the block lies in: the one target without which the block is unreachable
+        arms = []
+        tg = [(int(v), tb) for v, tb in t["targets"]]
+        for v, tb in tg:
+            if block not in cfg.reach([0], blocked_edges=[(u, tb)]) and block in cfg.reach([tb]):
+                arms.append(names.get(v))
+        if len(arms) != 1 or arms[0] is None:
+            continue
+        pl = rvd["pl"]
+        fields = [e for e in pl.get("p", []) if isinstance(e, dict) and "f" in e]
+        cands = []
+        if not fields:
+            srcs = _flows_back(fn, pl["l"])
+            for site, rv in srcs:
+                if rv["k"] == "agg" and rv.get("adt") == adt:
+                    cands.append((site.bb, rv.get("variant")))
+                else:
+                    cands = None
+                    break
+        elif len(fields) == 1:
+            cands = []
+            for site, rv in _flows_back(fn, pl["l"]):
+                if rv["k"] == "agg" and rv.get("adt") == fields[0].get("adt") and fields[0]["f"] < len(rv["fields"]):
+                    fl = op_local(rv["fields"][fields[0]["f"]])
+                    if fl is None:
+                        cands = None
+                        break
+                    for s2, rv2 in _flows_back(fn, fl):
+                        if rv2["k"] == "agg" and rv2.get("adt") == adt:
+                            cands.append((s2.bb, rv2.get("variant")))
+                        else:
+                            cands = None
+                            break
+                    if cands is None:
+                        break
+                else:
+                    cands = None
+                    break
+        if not cands:
+            continue
+        sites = [bb for bb, v in cands if v == arms[0]]
+        if sites and len(set(v for bb, v in cands)) > 1:
+            out = sorted(set(sites))
+            break
+    return out or []
 
 
 # --------------------------------------------------------------------------
